@@ -333,6 +333,12 @@ func (v *VC) modOf(fn *ssa.Function, blocks func(yield func(*ssa.BasicBlock)), r
 				// runs at function exit, not inside the loop
 			case *ssa.MakeSlice, *ssa.Alloc:
 				// writes only to the fresh object
+			case *ssa.Next:
+				if fn == v.fn {
+					if k := v.visKey(i); k != "" {
+						m.noteGhost(strings.TrimPrefix(k, "ghost:"))
+					}
+				}
 			case *ssa.Call:
 				v.modOfCall(fn, &i.Call, root, m, depth)
 			}
@@ -902,6 +908,21 @@ func (v *VC) genInstr(in ssa.Instruction, g string, heap *Heap) {
 		}
 	case *ssa.Range:
 		v.names[i] = "range_" + v.pfx + sanitize(i.Name())
+		if mt, ok := i.X.Type().Underlying().(*types.Map); ok {
+			// the set of keys this range statement has produced so far: empty
+			k := v.visKeyOfRange(i, mt)
+			v.heapSet(heap, k, fmt.Sprintf("((as const (Array %s Bool)) false)", v.sortOf(mt.Key())))
+			// the domain of the map when the range statement starts (entries created during the
+			// iteration may be skipped: coverage is claimed for entries present from start to end only)
+			dk, _, ks, _ := v.mapKeys(mt)
+			hd := v.heapGet(heap, dk, fmt.Sprintf("RAW:(Array Ptr (Array %s Bool))", ks))
+			dn := v.freshName("rangedom")
+			v.emit("(define-fun %s () (Array %s Bool) (select %s %s))", dn, ks, hd, v.val(i.X))
+			if v.rangeDom == nil {
+				v.rangeDom = map[*ssa.Range]string{}
+			}
+			v.rangeDom[i] = dn
+		}
 	case *ssa.Next:
 		v.genNext(i, g, heap)
 	case *ssa.Go:
@@ -1229,7 +1250,36 @@ func (v *VC) genNext(i *ssa.Next, g string, heap *Heap) {
 	v.assume(g, v.rangeFact(mt.Elem(), n+"_2"))
 	v.assume(g, v.validFact(mt.Key(), n+"_1", heap))
 	v.assume(g, v.validFact(mt.Elem(), n+"_2", heap))
-	v.note("map iteration: each step yields an arbitrary key of the map (order and coverage not modelled)")
+	// coverage: a key is produced at most once; when the iteration ends every key that is (still) in
+	// the map has been produced (entries deleted during the loop may have been skipped, entries added
+	// during the loop may or may not have been produced - neither is claimed)
+	vk2 := v.visKeyOfRange(rng, mt)
+	vis := v.heapGet(heap, vk2, fmt.Sprintf("RAW:(Array %s Bool)", ks))
+	v.assume(g, fmt.Sprintf("(=> %s_0 (not (select %s %s_1)))", n, vis, n))
+	if dn, ok := v.rangeDom[rng]; ok {
+		v.assume(g, fmt.Sprintf("(=> (and (not %s_0) (not (= %s nilp))) (forall ((qk %s)) (! (=> (and (select %s qk) (select (select %s %s) qk)) (select %s qk)) :pattern ((select %s qk)))))", n, m, ks, dn, hd, m, vis, vis))
+	}
+	v.heapSet(heap, vk2, fmt.Sprintf("(ite %s_0 (store %s %s_1 true) %s)", n, vis, n, vis))
+	v.note("map iteration: arbitrary order; every key still in the map when the loop ends was visited exactly once (visited(k) in contracts)")
+}
+
+// visKey: heap key of the visited-set ghost of the map range a Next instruction steps ("" if none).
+func (v *VC) visKey(i *ssa.Next) string {
+	rng, _ := i.Iter.(*ssa.Range)
+	if i.IsString || rng == nil {
+		return ""
+	}
+	mt, ok := rng.X.Type().Underlying().(*types.Map)
+	if !ok {
+		return ""
+	}
+	return v.visKeyOfRange(rng, mt)
+}
+
+func (v *VC) visKeyOfRange(rng *ssa.Range, mt *types.Map) string {
+	k := "ghost:vis_" + v.pfx + sanitize(rng.Name())
+	v.registerKey(k, fmt.Sprintf("RAW:(Array %s Bool)", v.sortOf(mt.Key())))
+	return k
 }
 
 func (v *VC) genConvert(i *ssa.Convert, g string) {
